@@ -12,7 +12,7 @@ PROPERTY = "C18"
 LEVEL = "exploration"
 BUDGET = {"quick": 480, "thorough": 30000}
 CHUNK = 2
-RUN_TIMEOUT_S = 300
+RUN_TIMEOUT_S = 1500
 MAX_DISCARD_FRACTION = 0.5
 RULE = (
     "seeded sessions: 1..4 spheres (rigid bodies with spin, point masses) over 1..2 fixed planes plus sphere-sphere pairs, "
